@@ -3,6 +3,8 @@
 package main
 
 import (
+	"sort"
+
 	"verif/harness/lib"
 )
 
@@ -13,17 +15,21 @@ type valSet struct {
 	powers []uint64
 	tbl    []int
 	rot    int
+	alt    []uint64 // validator powers at odd heights (nil: same set at every height)
 }
 
 var valSets = []valSet{
-	{"4x1", []uint64{1, 1, 1, 1}, []int{0, 1, 2, 3}, 0},
-	{"4x1", []uint64{1, 1, 1, 1}, []int{0, 1, 2, 3}, 0},
-	{"1,1,1,4", []uint64{1, 1, 1, 4}, []int{3, 0, 3, 1, 3, 2, 3}, 0},
-	{"3,3,2,1,1", []uint64{3, 3, 2, 1, 1}, []int{0, 1, 2, 0, 1, 3, 4}, 0},
-	{"7x1", []uint64{1, 1, 1, 1, 1, 1, 1}, []int{0, 1, 2, 3, 4, 5, 6}, 0},
-	{"4x5", []uint64{5, 5, 5, 5}, []int{2, 0, 3, 1}, 0},
-	{"3,3,2,1,1-rot", []uint64{3, 3, 2, 1, 1}, []int{0, 1, 2, 3, 4}, 1},
-	{"2,2,1,1", []uint64{2, 2, 1, 1}, []int{0, 1, 2, 3}, 0},
+	{"4x1", []uint64{1, 1, 1, 1}, []int{0, 1, 2, 3}, 0, nil},
+	{"4x1", []uint64{1, 1, 1, 1}, []int{0, 1, 2, 3}, 0, nil},
+	{"1,1,1,4", []uint64{1, 1, 1, 4}, []int{3, 0, 3, 1, 3, 2, 3}, 0, nil},
+	{"3,3,2,1,1", []uint64{3, 3, 2, 1, 1}, []int{0, 1, 2, 0, 1, 3, 4}, 0, nil},
+	{"7x1", []uint64{1, 1, 1, 1, 1, 1, 1}, []int{0, 1, 2, 3, 4, 5, 6}, 0, nil},
+	{"4x5", []uint64{5, 5, 5, 5}, []int{2, 0, 3, 1}, 0, nil},
+	{"3,3,2,1,1-rot", []uint64{3, 3, 2, 1, 1}, []int{0, 1, 2, 3, 4}, 1, nil},
+	{"2,2,1,1", []uint64{2, 2, 1, 1}, []int{0, 1, 2, 3}, 0, nil},
+	{"4x1|3,1,1,1", []uint64{1, 1, 1, 1}, []int{0, 1, 2, 3}, 0, []uint64{3, 1, 1, 1}},
+	{"1,1,1,4|2,2,2,1", []uint64{1, 1, 1, 4}, []int{3, 0, 1, 2}, 0, []uint64{2, 2, 2, 1}},
+	{"3,3,2,1,1|1,1,1,1,1", []uint64{3, 3, 2, 1, 1}, []int{0, 1, 2, 3, 4}, 0, []uint64{1, 1, 1, 1, 1}},
 }
 
 func sumU(xs []uint64) uint64 {
@@ -44,6 +50,8 @@ type flight struct {
 
 type profile struct {
 	wDeliver, wTimeout, wByz, wDrop int
+	wSync                           int // catch-up of a lagging validator through ProcessSync
+	walP                            int // per cent of inputs delivered through ProcessWAL
 	dupP                            int // per cent
 	slowLinkP                       int // per cent of links that are slow
 	slowFlightP                     int // per cent of flights delayed individually
@@ -64,6 +72,7 @@ type sim struct {
 	tick     int
 	slow     map[[2]int]bool
 	values   map[uint64][]uint64 // height -> values seen
+	commits  map[uint64]In       // height -> a ProcessSync input made from a correct validator's commit
 	start    uint64
 	label    string
 }
@@ -89,6 +98,8 @@ func genProfile(r *lib.RNG, thorough bool) profile {
 		pf.slowFlightP = r.Range(0, 25)
 	}
 	pf.byzMode = r.Intn(3)
+	pf.wSync = lib.Pick(r, []int{0, 0, 2, 6})
+	pf.walP = lib.Pick(r, []int{0, 0, 5, 20})
 	pf.wByz = 0
 	if pf.byzMode > 0 {
 		pf.wByz = r.Range(5, 40)
@@ -106,8 +117,8 @@ func genScenario(r *lib.RNG, thorough bool) *sim {
 	vs := lib.Pick(r, valSets)
 	n := len(vs.powers)
 	total := sumU(vs.powers)
-	fmax := (total - 1) / 3
-	cfg := Cfg{Powers: vs.powers, Total: total, Rot: vs.rot, VMod: 4, VRem: 3, PMul: 1, Tbl: vs.tbl}
+	cfg := Cfg{Powers: vs.powers, Total: total, Rot: vs.rot, VMod: 4, VRem: 3, PMul: 1, Tbl: vs.tbl,
+		AltPowers: vs.alt, AltTotal: sumU(vs.alt)}
 	start := uint64(lib.Pick(r, []int{0, 0, 1, 7}))
 	pf := genProfile(r, thorough)
 	// Byzantine subset: random order, add while the power stays <= f at every height of the run
@@ -125,7 +136,7 @@ func genScenario(r *lib.RNG, thorough bool) *sim {
 				for _, b := range append(append([]int(nil), byz...), c) {
 					p += cfg.power(h, b)
 				}
-				if p > fmax {
+				if p > (cfg.total(h)-1)/3 {
 					ok = false
 				}
 			}
@@ -144,7 +155,7 @@ func genScenario(r *lib.RNG, thorough bool) *sim {
 			sc.Nodes = append(sc.Nodes, NodeSpec{Node: i, Height: start, VBase: uint64(400 * (i + 1)), VStep: 4})
 		}
 	}
-	s := &sim{r: r, sc: sc, pf: pf, slow: map[[2]int]bool{}, values: map[uint64][]uint64{}, start: start, label: vs.name}
+	s := &sim{r: r, sc: sc, pf: pf, slow: map[[2]int]bool{}, values: map[uint64][]uint64{}, commits: map[uint64]In{}, start: start, label: vs.name}
 	for i := 0; i < n; i++ {
 		for j := 0; j < n; j++ {
 			if r.Intn(100) < pf.slowLinkP {
@@ -167,6 +178,12 @@ func (s *sim) addValue(h, v uint64) {
 // do delivers an input and turns the resulting actions into flights / pending timeouts; after a
 // commit the next height is started at once (driver.listen).
 func (s *sim) do(m int, in In) {
+	if in.Kind != "sync" && !in.Wal && s.r.Intn(100) < s.pf.walP {
+		in.Wal = true
+		if in.Kind == "start" {
+			in.H = s.w.views[m].height
+		}
+	}
 	acts := s.w.Do(m, in)
 	s.sc.Events = append(s.sc.Events, Event{M: m, In: in})
 	commit := false
@@ -183,6 +200,18 @@ func (s *sim) do(m int, in In) {
 			s.timeouts[m] = append(s.timeouts[m], In{Kind: "to", Step: a.Step, H: a.H, R: a.R})
 		case "C":
 			commit = true
+			if _, ok := s.commits[a.H]; !ok {
+				// what a block-sync would deliver for this height: the decided proposal and the
+				// precommits the committing validator has seen for it
+				sy := In{Kind: "sync", H: a.H, R: a.R, Sender: a.Sender, VR: a.VR, Value: a.Value}
+				for k := range s.w.views[m].votes {
+					if k.pc && k.h == a.H && k.r == a.R && !k.isNil && k.val == a.Value {
+						sy.Votes = append(sy.Votes, In{Kind: "pc", H: k.h, R: k.r, Sender: k.sender, Value: k.val})
+					}
+				}
+				sort.Slice(sy.Votes, func(i, j int) bool { return sy.Votes[i].Sender < sy.Votes[j].Sender })
+				s.commits[a.H] = sy
+			}
 		}
 	}
 	if commit {
@@ -361,6 +390,14 @@ func (s *sim) run() {
 			wD, wX = 0, 0
 			if !s.pf.eagerTimeouts {
 				wT = 50 // nothing deliverable: time passes, timeouts expire
+			}
+		}
+		if s.pf.wSync > 0 && s.r.Intn(100) < s.pf.wSync {
+			// a lagging validator catches up through ProcessSync
+			m := s.r.Intn(len(s.sc.Nodes))
+			if sy, ok := s.commits[s.w.views[m].height]; ok && s.w.views[m].started {
+				s.do(m, sy)
+				continue
 			}
 		}
 		tot := wD + wT + wB + wX
